@@ -274,6 +274,13 @@ def generate(tier, rng):
     for dl in [[x] for x in SMB2_KNOWN + SMB2_UNKNOWN] + [SMB2_KNOWN, SMB2_KNOWN[::-1], [0x0311, 0x0202], [0x0202] * 16]:
         p, req = mk2(rng, 0, smb2_neg_body(dl), dialects=dl)
         b.add(p, req, "answer" if set(dl) & set(SMB2_KNOWN) else "silent")
+    # DialectCount that disagrees with the list: only the first DialectCount entries are offered
+    for trailer in (b"", le16(0x0202), le16(0x0311), le16(0x0001), le16(0x0202) * 3, le16(0x02ff) + b"\x01"):
+        p, req = mk2(rng, 0, smb2_neg_body([], count=0, trailer=trailer), dialects=[])
+        b.add(p, req, "silent", tcp=len(trailer) % 4 == 0)
+    for dl, count in (([0x0001, 0x0202], 1), ([0x0001, 0x0002, 0x0311], 2), ([0x0202, 0x0001], 1), ([0x0311, 0x0202], 1)):
+        p, req = mk2(rng, 0, smb2_neg_body(dl, count=count), dialects=dl[:count])
+        b.add(p, req, "answer" if set(dl[:count]) & set(SMB2_KNOWN) else "silent")
     yield from b.scripts()
     # D. SMB2 session setup
     b = Batch("smb2-session-setup")
